@@ -540,14 +540,14 @@ func thoroughSelftest(ctx *Ctx, rule *Rule, p *engine.Prog, rep *engine.Report, 
 		}
 	}
 	st := map[string]interface{}{
-		"guard_variants":            len(killed) + len(survived),
-		"guard_variants_killed":     len(killed),
-		"guard_variants_survived":   survived,
-		"guard_variants_discarded":  len(broken),
-		"seeded_changes_reported":   seedKilled,
-		"seeded_changes_missed":     seedMissed,
-		"seeded_notes":              seedNotes,
-		"note":                      "survivors are guards the rules of this property do not depend on (or a weakness of the checker); they are not a verdict about kvass",
+		"guard_variants":           len(killed) + len(survived),
+		"guard_variants_killed":    len(killed),
+		"guard_variants_survived":  survived,
+		"guard_variants_discarded": len(broken),
+		"seeded_changes_reported":  seedKilled,
+		"seeded_changes_missed":    seedMissed,
+		"seeded_notes":             seedNotes,
+		"note":                     "survivors are guards the rules of this property do not depend on (or a weakness of the checker); they are not a verdict about kvass",
 	}
 	// a seeded change of this property that is no longer reported is a regression of the checker
 	for _, m := range seedMissed {
